@@ -475,9 +475,13 @@ theorem newIdx_fresh (n : Node) (idx : Nat)
     simp at this
     exact this.2
 
-theorem sessOp_addnoc_noRef (cfg : Cfg) (n : Node) (sid s ca fid node subj ser : Nat) (mode : Mode) (h : NoRef n) :
-    NoRef (sessOp cfg n sid mode (.addnoc s ca fid node subj ser)).1 := by
-  simp only [sessOp]
+theorem storeResum_noRef (n : Node) (h : NoRef n) : NoRef (storeResum n).1 := by
+  have ⟨hfr, _⟩ := storeResum_spec n
+  exact noRef_fields hfr.fabrics hfr.sessions hfr.resum h
+
+theorem addNoc_noRef (cfg : Cfg) (n : Node) (sid ca fid node subj ser : Nat) (mode : Mode) (h : NoRef n) :
+    NoRef (addNoc cfg n sid mode ca fid node subj ser).1 := by
+  simp only [addNoc]
   split
   · exact h
   · split
@@ -529,6 +533,11 @@ theorem sessOp_addnoc_noRef (cfg : Cfg) (n : Node) (sid s ca fid node subj ser :
                     · -- CASE session
                       exact noRef_mono (n := n) (hmono _) (fun s' hs' he _ => ⟨s', hs', he, rfl⟩)
                         (fun r' hr' => ⟨r', hr', rfl⟩) h
+
+theorem sessOp_addnoc_noRef (cfg : Cfg) (n : Node) (sid s ca fid node subj ser : Nat) (mode : Mode) (h : NoRef n) :
+    NoRef (sessOp cfg n sid mode (.addnoc s ca fid node subj ser)).1 :=
+  sessOp_addnoc_lift (P := NoRef) cfg n sid s ca fid node subj ser mode
+    (fun m hm => storeResum_noRef m hm) (fun m hm => addNoc_noRef cfg m sid ca fid node subj ser mode hm) h
 
 theorem sessOp_updnoc_noRef (cfg : Cfg) (n : Node) (sid s node ser : Nat) (mode : Mode) (h : NoRef n) :
     NoRef (sessOp cfg n sid mode (.updnoc s node ser)).1 := by
@@ -764,12 +773,11 @@ theorem step_noRef (cfg : Cfg) (n : Node) (op : Op) (h : NoRef n) (hop : op ≠ 
       rw [hr] at this
       cases e <;> exact this
     | flush =>
-      simp only [step, isSessOp, kvTick]
-      by_cases f0 : n.failIn = 0
-      · simp only [f0, if_true]; exact noRef_fields rfl rfl rfl h
-      · by_cases f1 : n.failIn = 1
-        · simp only [f1]; exact noRef_fields rfl rfl rfl h
-        · simp only [f0, f1, if_false]; exact noRef_fields rfl rfl rfl h
+      simp only [step, isSessOp]
+      have h1 := storeResum_noRef n h
+      rcases hst : storeResum n with ⟨n1, b⟩
+      rw [hst] at h1
+      cases b <;> exact h1
     | restart => exact restartFrom_noRef n _ _
     | crash k => exact restartFrom_noRef n _ _
     | corrupt => exact restartFrom_noRef n _ _
